@@ -34,3 +34,10 @@ CHECK = {
     "assumptions": ["normal-equation bound G = 16 eps (cond |JtY| + sqrt(n)|J||Y| + |JtJ||x|); cases with 16 eps cond >= 1e-2 are counted as vacuous, not as checked",
                     "preconditioning applied as the library's tests do: scale-only PreconditionedPointSet + setPreconditioner()"],
 }
+
+# additionally: a reduced workload under valgrind memcheck, for uninitialised-value
+# use and invalid accesses that the ASan build cannot see; oracle verdicts are not taken from this
+# flavour (valgrind emulates long double with 64 bits), only memcheck's own reports and aborts
+CHECK["thorough"]["flavours"] = list(CHECK.get("flavours", ["asan"])) + ["memcheck"]
+CHECK["quick"]["flavours"] = list(CHECK.get("flavours", ["asan"])) + ["memcheck"]
+CHECK["flavour_cases"] = {"memcheck": {"quick": 160, "thorough": 3000}}
